@@ -132,6 +132,8 @@ type Env struct {
 	Loader *Loader
 	nDir   int
 	Leaves []Leaf
+	// KidsOf gives the built child storages of every inner node
+	KidsOf  map[*Node][]blobserver.Storage
 	closers []io.Closer
 }
 
@@ -146,7 +148,7 @@ func NewEnv() (*Env, error) {
 	if err != nil {
 		return nil, err
 	}
-	return &Env{Dir: d, Loader: NewLoader()}, nil
+	return &Env{Dir: d, Loader: NewLoader(), KidsOf: map[*Node][]blobserver.Storage{}}, nil
 }
 
 func (e *Env) Close() {
@@ -178,6 +180,7 @@ func (e *Env) Build(n *Node, wrap WrapFunc) (blobserver.Storage, error) {
 		kids = append(kids, e.Loader.Add(s))
 		kidSto = append(kidSto, s)
 	}
+	e.KidsOf[n] = kidSto
 	mk := func(typ string, conf map[string]any) (blobserver.Storage, error) {
 		s, err := blobserver.CreateStorage(typ, e.Loader, jsonconfig.Obj(conf))
 		if err != nil {
